@@ -16,7 +16,8 @@ RULE_TEXT = ("C11-W: is_whitespace denotes exactly {0..=9} U {11..=32} (set equa
              "ws? ( NL | header '?'? (ws args?)? ws? (NL | ';') ), separators are ws? ',' ws? and ws? ':' ws?, with "
              "remainders threaded; C11-C: every class used in headers and numbers is closed under ASCII case swap, "
              "mnemonic classes are [A-Za-z] and [A-Za-z0-9_]; child lookup is case-insensitive on whole names (C01-M) "
-             "and short and long forms are both in the trie (C01-T).")
+             "and short and long forms are both in the trie (C01-T)."
+             " C11-PR: the contracts of the parser combinators the skeleton builds on are read from their bodies - satisfy (accept first byte iff pred / soft error / Incomplete on empty), take_while (never fails; longest prefix, position() form or counting-loop form), optional (never fails; Some(value) or input untouched), tag(b) = satisfy(== b).")
 
 WS = frozenset(list(range(0, 10)) + list(range(11, 33)))
 
